@@ -39,12 +39,12 @@ var tiers = map[string]map[string]tierCfg{
 	"quick": {
 		"C01": {60000, 120}, "C02": {60000, 120}, "C03": {40000, 120}, "C04": {60000, 120}, "C05": {30000, 120},
 		"C06": {50000, 120}, "C07": {12000, 120}, "C08": {30000, 120}, "C09": {40000, 120}, "C10": {40000, 120},
-		"C13": {30000, 120}, "C14": {30000, 120}, "C16": {24000, 150}, "C19": {20000, 120}, "C20": {40000, 120},
+		"C13": {30000, 120}, "C14": {30000, 120}, "C16": {24000, 150}, "C19": {60000, 120}, "C20": {40000, 120},
 	},
 	"thorough": {
 		"C01": {1500000, 2400}, "C02": {1500000, 2400}, "C03": {1000000, 2400}, "C04": {1500000, 2400}, "C05": {700000, 2400},
 		"C06": {1200000, 2400}, "C07": {300000, 2400}, "C08": {700000, 2400}, "C09": {1000000, 2400}, "C10": {1000000, 2400},
-		"C13": {700000, 2400}, "C14": {700000, 2400}, "C16": {500000, 3000}, "C19": {400000, 2400}, "C20": {1000000, 2400},
+		"C13": {700000, 2400}, "C14": {700000, 2400}, "C16": {500000, 3000}, "C19": {1200000, 2400}, "C20": {1000000, 2400},
 	},
 }
 
